@@ -17,6 +17,7 @@ namespace NV.C11
 
 def seenStep (seen : List Nat) : Ev → List Nat
   | .tickBegin => []
+  | .tickOff => []
   | .beat o => o :: seen
   | _ => seen
 
@@ -25,6 +26,7 @@ def offStep (off : List Nat) : Ev → List Nat
   | .hookEnd t => t :: off
   | .shb _ t n _ => if n = 0 then t :: off else off.filter (· ≠ t)
   | .clone _ new _ _ _ => off.filter (· ≠ new)
+  | .reload _ t n _ => if n = 0 then t :: off else off.filter (· ≠ t)
   | _ => off
 
 def beatFresh (seen : List Nat) : Ev → Bool
@@ -589,6 +591,62 @@ theorem JI_step {j : JState} {seen off : List Nat} (h : JI j seen off) (e : Ev)
     split
     · exact h
     · rename_i hc; rw [if_neg hc] at hacc; exact absurd hacc (flagV_bad_ne rfl)
+  | ctx o lv tp full =>
+    refine ⟨rfl, rfl, ?_⟩
+    simp only [judge1] at hacc ⊢
+    split
+    · rename_i hc; rw [if_pos hc] at hacc; exact absurd hacc (flagV_bad_ne rfl)
+    · rename_i hc
+      rw [if_neg hc] at hacc
+      split
+      · rename_i hc2; rw [if_pos hc2] at hacc; exact absurd hacc (flagV_bad_ne rfl)
+      · rename_i hc2
+        rw [if_neg hc2] at hacc
+        split
+        · rename_i hc3; rw [if_pos hc3] at hacc; exact absurd hacc (flagV_bad_ne rfl)
+        · exact h
+  | caught o => exact ⟨rfl, rfl, h⟩
+  | reload s t n q =>
+    refine ⟨rfl, rfl, ?_⟩
+    simp only [judge1] at hacc ⊢
+    split
+    · rename_i hc; rw [if_pos hc] at hacc; exact absurd hacc (flagV_bad_ne rfl)
+    · rename_i hc
+      rw [if_neg hc] at hacc
+      have hop : opAllowed j = true := by simpa using hc
+      split
+      · rename_i hc2; rw [if_pos hc2] at hacc; exact absurd hacc (flagV_bad_ne rfl)
+      · rename_i hc2
+        rw [if_neg hc2] at hacc
+        have hne := opAllowed_ne hop
+        have hf1 := jDisable_frame j t
+        have h1 : JI (jDisable j t) seen off :=
+          JI_off_mono (JI_jDisable h t hne) (fun o ho => List.mem_cons_of_mem _ ho)
+        have hne1 : ∀ o, (jDisable j t).expect ≠ .beat o := by intro o; rw [hf1.expect]; exact hne o
+        have h2 := JI_jSet h1 t n hne1
+        have hb := (jSet_frame (jDisable j t) t n).bad
+        split
+        · exact h2
+        · rename_i hc3
+          rw [if_neg hc3] at hacc
+          exact absurd hacc (flagV_bad_ne (hb.trans hf1.bad))
+  | reloadNone s t =>
+    refine ⟨rfl, rfl, ?_⟩
+    simp only [judge1] at hacc ⊢
+    split
+    · rename_i hc; rw [if_pos hc] at hacc; exact absurd hacc (flagV_bad_ne rfl)
+    · exact h
+  | living o => exact ⟨rfl, rfl, h⟩
+  | burn o => exact ⟨rfl, rfl, h⟩
+  | tickOff =>
+    refine ⟨rfl, rfl, ?_⟩
+    simp only [judge1] at hacc ⊢
+    split
+    · rename_i hc; rw [if_pos hc] at hacc; exact absurd hacc (flagV_bad_ne rfl)
+    · refine ⟨h.nodup, ?_, h.hoff, ?_⟩
+      · intro o ho; cases ho
+      · intro o ho; cases ho
+  | tflags n => exact ⟨rfl, rfl, h⟩
   | junk s => exact absurd hacc (flagV_bad_ne rfl)
 
 theorem advance_bad (j : JState) : (advance j).bad = j.bad := by
@@ -678,6 +736,27 @@ theorem judge1_bad (j : JState) (e : Ev) : (judge1 j e).bad = j.bad ∨ ∃ v, (
   | topNoObj o => simp only [judge1]; split <;> first | exact Or.inl rfl | exact Or.inr ⟨_, rfl⟩
   | flag o => exact Or.inl rfl
   | hbs s l => simp only [judge1]; split <;> first | exact Or.inl rfl | exact Or.inr ⟨_, rfl⟩
+  | ctx o lv tp full =>
+    simp only [judge1]; split
+    · exact Or.inr ⟨_, rfl⟩
+    · split
+      · exact Or.inr ⟨_, rfl⟩
+      · split <;> first | exact Or.inl rfl | exact Or.inr ⟨_, rfl⟩
+  | caught o => exact Or.inl rfl
+  | reload s t n q =>
+    simp only [judge1]; split
+    · exact Or.inr ⟨_, rfl⟩
+    · split
+      · exact Or.inr ⟨_, rfl⟩
+      · have hb := ((jSet_frame (jDisable j t) t n).bad).trans (jDisable_frame j t).bad
+        split
+        · exact Or.inl hb
+        · exact Or.inr ⟨_, congrArg (List.cons _) hb⟩
+  | reloadNone s t => simp only [judge1]; split <;> first | exact Or.inl rfl | exact Or.inr ⟨_, rfl⟩
+  | living o => exact Or.inl rfl
+  | burn o => exact Or.inl rfl
+  | tickOff => simp only [judge1]; split <;> first | exact Or.inl rfl | exact Or.inr ⟨_, rfl⟩
+  | tflags n => exact Or.inl rfl
   | junk s => exact Or.inr ⟨_, rfl⟩
 
 theorem foldl_bad_length (tr : List Ev) : ∀ j : JState, j.bad.length ≤ (tr.foldl judge1 j).bad.length := by
